@@ -27,7 +27,11 @@ import (
 )
 
 // NoBackground switches the checkpoint / statistics goroutines off (hook H2). Process-global.
-func NoBackground(on bool) { concurrency.VerifNoBackgroundThreads = on }
+func NoBackground(on bool) {
+	if concurrency.VerifNoBackgroundThreads != on { // written once per process in practice (keeps -race runs free of harness noise)
+		concurrency.VerifNoBackgroundThreads = on
+	}
+}
 
 var dbCounter int64
 
@@ -54,7 +58,9 @@ type DB struct {
 // Open starts an instance. fileMode selects the file-backed disk manager (restart / recovery exist
 // only there); otherwise the in-memory virtual disk is used. Frames = kb/4.
 func Open(name string, kb int, fileMode bool) *DB {
-	common.TempSuppressOnMemStorage = fileMode
+	if common.TempSuppressOnMemStorage != fileMode {
+		common.TempSuppressOnMemStorage = fileMode
+	}
 	if !fileMode {
 		name = fmt.Sprintf("%s-%d", name, atomic.AddInt64(&dbCounter, 1))
 	}
